@@ -240,7 +240,9 @@ func (s *Subscription) setResource() {
 // and all its referenced resources recursively, has been loaded from the rescache.
 // If the resource is already ready, the callback will directly be called.
 func (s *Subscription) OnReady(cb func()) {
-	if s.IsReady() {
+	// A disposed subscription will never be loaded. The callback is called
+	// directly, and will get errDisposedSubscription from Error.
+	if s.IsReady() || s.state == stateDisposed {
 		cb()
 		return
 	}
@@ -802,9 +804,23 @@ func (s *Subscription) Dispose() {
 
 	state := s.state
 	s.state = stateDisposed
+	rcbs := s.readyCallbacks
 	s.readyCallbacks = nil
 	s.eventQueue = nil
 	s.throttle = nil
+
+	// Requests still waiting for the subscription to be ready must not be left
+	// without a response. Their callbacks are queued on the connection worker,
+	// unless the connection itself is closing, and will see
+	// errDisposedSubscription.
+	if len(rcbs) > 0 {
+		s.c.Enqueue(func() {
+			for _, rcb := range rcbs {
+				rcb.loading--
+				s.testReady(rcb)
+			}
+		})
+	}
 
 	if s.resourceSub != nil {
 		s.unsubscribeRefs()
@@ -891,12 +907,19 @@ func (s *Subscription) loadAccess(cb func(*rescache.Access), t *rescache.Throttl
 		t.Add(func() {
 			s.c.Access(s, func(access *rescache.Access) {
 				s.c.Enqueue(func() {
+					cbs := s.accessCallbacks
+					s.flags &= ^flagAccessCalled
 					if s.state == stateDisposed {
+						// Let requests waiting for the access response get
+						// an error response.
+						s.accessCallbacks = nil
+						access = &rescache.Access{Error: errDisposedSubscription}
+						for _, cb := range cbs {
+							cb(access)
+						}
 						return
 					}
 
-					cbs := s.accessCallbacks
-					s.flags &= ^flagAccessCalled
 					// Only store in case of an actual result or system.accessDenied error
 					if access.Error == nil || access.Error.Code == reserr.CodeAccessDenied {
 						s.access = access
@@ -913,12 +936,19 @@ func (s *Subscription) loadAccess(cb func(*rescache.Access), t *rescache.Throttl
 	} else {
 		s.c.Access(s, func(access *rescache.Access) {
 			s.c.Enqueue(func() {
+				cbs := s.accessCallbacks
+				s.flags &= ^flagAccessCalled
 				if s.state == stateDisposed {
+					// Let requests waiting for the access response get
+					// an error response.
+					s.accessCallbacks = nil
+					access = &rescache.Access{Error: errDisposedSubscription}
+					for _, cb := range cbs {
+						cb(access)
+					}
 					return
 				}
 
-				cbs := s.accessCallbacks
-				s.flags &= ^flagAccessCalled
 				// Only store in case of an actual result or system.accessDenied error
 				if access.Error == nil || access.Error.Code == reserr.CodeAccessDenied {
 					s.access = access
